@@ -922,7 +922,22 @@ func ruleRevBareKey(c *Ctx) []Obligation {
 				if mk, isMk := m.(*ssa.MakeMap); isMk {
 					ln = c.varNameAt(fn, mk.Pos())
 				}
+				// named after the function it lives in; if that is a private helper, after the first function up the
+				// inline chain for which a reason is recorded (the reason was written for the un-extracted code)
 				name = c.FnName(rootFn(fn)) + ": " + ln
+				if _, has := bareKeyJustified[name]; !has {
+					for f2, d := rootFn(fn), 0; d < 5; d++ {
+						h := c.helpers[f2]
+						if h == nil {
+							break
+						}
+						f2 = rootFn(h.caller)
+						if _, has2 := bareKeyJustified[c.FnName(f2)+": "+ln]; has2 {
+							name = c.FnName(f2) + ": " + ln
+							break
+						}
+					}
+				}
 			}
 			t := tabs[name]
 			if t == nil {
